@@ -419,3 +419,15 @@ def replay_witness(unit_name, case, ob):
         return {"reproduced": bool(bad), "observed": {"integral": integ, "sample_factor_row0": ratio_s[0].tolist(), "value_factor": ratio_d.tolist()},
                 "expected": {"integral": 1.0, "sample factors equal value factors": True}}
     return {"reproduced": False, "note": "no concrete replay harness for this obligation"}
+
+
+
+# the normalisation of every pair-count term uses the sums of weights of the right catalog, bin and patch: the C01 unit on
+# PatchLinkage.count_pairs (cells, diagonal factor, sum_weights1/2 columns for every arrival order), run here as well
+def _register_shared():
+    from . import C01 as _C01
+    unit(P, "PatchLinkage.count_pairs", fuc=["yaw.correlation.measurements:PatchLinkage.count_pairs"],
+         cases=[dict(auto=a, S=1) for a in (False, True)], trusted=["iter_unordered contract", "iter_patch_id_pairs contract"], kind="bounded")(_C01.u_count_pairs)
+
+
+_register_shared()
